@@ -50,6 +50,9 @@ def run(F, R):
     # bytes and the credit of one stream are applied to another
     from .C18 import x5_predicates
     x5_predicates(F, RuleProxy(R, {'X5': 'V8'}))
+    # V9: the socket queues run in the negotiated modes (C08.H3)
+    from .C08 import queue_modes_rule
+    queue_modes_rule(F, R, M, 'V9', ['device::socket'])
     v5_fwd(F, R)
     v6_ring(F, R)
 
